@@ -152,6 +152,7 @@ class Ref:
         self.spec = spec
         self._trace: Optional[List[str]] = None
         self.saw_hairpin = False  # set when a walk leaves a routing device through the port it entered by
+        self._branched = False  # set when a walk had to explore more than one possibility
         self.kind: Dict[str, str] = {}
         self.node: Dict[str, Dict] = {}
         self.ifs: Dict[Tuple[str, int], Tuple[int, int]] = {}  # (node, port) -> (ip, plen)
@@ -306,6 +307,22 @@ class Ref:
                 alts.append((pg, fates))
         return alts
 
+    def path(self, src: str, dst: int, st: State) -> Optional[List[str]]:
+        """The routing devices a packet from host src to dst passes, in order — only when the reference has exactly one
+        way (one sending alternative, no tied routes, no fallback) and that way delivers the packet; else None."""
+        self._trace, self._branched = [], False
+        try:
+            alts = self.walk_alts(src, dst, st)
+            trace, branched = list(self._trace), self._branched
+        finally:
+            self._trace = None
+        if len(alts) != 1 or branched:
+            return None
+        fates = alts[0][1]
+        if len(fates) != 1 or next(iter(fates))[0] != DELIVERED:
+            return None
+        return trace
+
     def walk(self, src: str, dst: int, st: State) -> Set[Tuple[str, str]]:
         """Possible fates of a unicast packet from host `src` to address `dst`: set of (outcome, node/reason)."""
         out: Set[Tuple[str, str]] = set()
@@ -348,6 +365,8 @@ class Ref:
         if not nhs:
             return {(DROP, "no-route")}
         out = set()
+        if len(nhs) > 1:
+            self._branched = True
         for nh in nhs:
             ch = dict(choice)
             ch[n] = nh
@@ -367,6 +386,7 @@ class Ref:
                 # "default route as last resort" admits that reading, so both fates are accepted.
                 dflt = self.node[n].get("default")
                 if dflt and ip2int(dflt) != nh and not choice.get("_fallback:" + n):
+                    self._branched = True
                     ch2 = dict(ch)
                     ch2[n] = ip2int(dflt)
                     ch2["_fallback:" + n] = 1
